@@ -26,7 +26,7 @@ EXPLANATION = (
 NOT_DECIDED = ["that every bonded pair ends at its minimum-image separation (depends on bond graph order and cell, numerical)",
                "anchor heuristics (guess_anchor_molecules)"]
 ASSUMPTIONS = ["Trajectory.__getitem__ (self[:]) returns a deep copy (decided by C03-R1)", "roundf / floorf / np.round / np.floor return integer-valued floats"]
-FLOORS = {"C11-R1": 6, "C11-R2": 18, "C11-R3": 3, "C11-R4": 4, "C11-R5": 3}
+FLOORS = {"C11-R1": 6, "C11-R2": 18, "C11-R3": 3, "C11-R4": 8, "C11-R5": 3}
 
 PXI = "mdtraj/geometry/src/image_molecules.pxi"
 TRAJ = "mdtraj/core/trajectory.py"
@@ -279,6 +279,16 @@ def r1_by_evaluation(ctx):
                     ctx.decide(gotb == want, "C11-R4", fn, TRAJ, q, "%s(inplace=%s): default bond list = the topology's bonds as index pairs sorted by the first atom" % (q.split(".")[1], inplace), "",
                                "the default bond list is %s; sorted by the index of the first atom it is %s (make_whole walks the bonds in one pass and can leave molecules broken otherwise)" % (gotb, want))
                 ctx.decide(not pr, "C11-R1", fn, TRAJ, q, what, "", "; ".join(pr))
+                # a bond order given by the caller (a walk that starts from the last atom of each molecule) reaches the kernel as given
+                given = [[4, 3], [2, 1], [1, 0], [0, 2]]
+                log.clear()
+                me2 = ctor(Ten.sym("x", (2, 5, 3)), top, Ten.sym("t", (2,)), ev0.to_ten([[3, 4, 5], [3, 4, 5]]), ev0.to_ten([[90, 90, 90], [80, 70, 60]]))
+                ev2 = TenSym({}, funcs=ucfuncs, models={kernel: kern, "deepcopy": lambda e_, c_: Obj(tag="copy"), "copy.deepcopy": lambda e_, c_: Obj(tag="copy")})
+                ev2.run_fn(fn, self=me2, inplace=inplace, sorted_bonds=ev2.to_ten(given))
+                sb = (log.get("args") or [None])[-1]
+                gotb = [[ev2.pyval(sb.at([k, 0])), ev2.pyval(sb.at([k, 1]))] for k in range(sb.shape[0])] if isinstance(sb, Ten) and sb.ndim == 2 else sb
+                ctx.decide(gotb == given, "C11-R4", fn, TRAJ, q, "%s(inplace=%s, sorted_bonds=given): the caller's bond order reaches the kernel unchanged" % (q.split(".")[1], inplace), "",
+                           "the caller hands over the bonds %s (a valid walk order), the kernel receives %s" % (given, gotb))
             except ShapeError as e:
                 ctx.violated("C11-R1", fn, TRAJ, q, what, "array operations do not fit: %s" % e)
                 ctx.undecided("C11-R4", fn, TRAJ, q, "default bond list", "not reached")
